@@ -13,6 +13,7 @@
   `l'` every glyph of it has the mask `W (union of the run's defined flag bits)`.
 -/
 import RbModel.Lemmas.Flags
+import RbModel.Lemmas.FlagCarry
 
 namespace RbModel.Flags
 
@@ -349,5 +350,58 @@ theorem C04_optin_setters (b : Buf) (s e : Nat) (hreq : (b.flags &&& Gen.Buf.pro
 
 example : ∃ b : Buf, (b.flags &&& Gen.Buf.produceSafeToInsertTatweel == 0) = true ∧ AllMask NoTatweel b.info ∧ AllMask NoTatweel b.out :=
   ⟨{ flags := 0x40 }, by decide, fun j x hx => by simp at hx, fun j x hx => by simp at hx⟩
+
+
+/-- **UNSAFE_TO_CONCAT survives the removal of a default ignorable** (`delete_glyphs_inplace`, "Merge cluster backward": what
+    `hide_default_ignorables` runs on a font without a space glyph after the final reversal of a right-to-left run).  One
+    iteration of the loop, read head `i`, write head `j`: the glyph `x = info[i]` is deleted (`var2 = 1` is the model's filter),
+    is alone in its cluster and the last kept glyph `p = info[j-1]` has a larger cluster value.  Then the run `[k, j)` of kept
+    glyphs that takes over `x`'s cluster value exposes UNSAFE_TO_CONCAT **iff the deleted glyph did** (likewise UNSAFE_TO_BREAK):
+    the boundary at the start of `x`'s cluster is still there and keeps its flag — a span that ended exactly on the ignorable
+    (a ligature attempt failing at a ZWNJ) stays visible.  If `x` satisfied BREAK ⇒ CONCAT, so do the renamed glyphs; no glyph
+    outside `[k, j)` changes.  Every buffer, position, level, mask content. -/
+theorem C04_delin_backward_keeps_concat (b : Buf) (i j fuel : Nat) (x p : Info) (hi : i < b.len)
+    (hlen : b.len ≤ b.info.length) (hji : j ≤ i) (hj : j ≠ 0)
+    (hx : b.info[i]? = some x) (hdel : x.var2 = 1) (hp : b.info[j - 1]? = some p)
+    (hnext : ∀ nx, i + 1 < b.len → b.info[i + 1]? = some nx → nx.cluster ≠ x.cluster)
+    (hlt : x.cluster < p.cluster) :
+    ∃ info k, Buf.deleteGlyphsInplace.loop b i j (fuel + 1) = Buf.deleteGlyphsInplace.loop { b with info := info } (i + 1) j fuel ∧
+      k < j ∧ (∀ q, ¬ (k ≤ q ∧ q < j) → info[q]? = b.info[q]?) ∧
+      ∀ q y', k ≤ q → q < j → info[q]? = some y' →
+        y'.cluster = x.cluster ∧
+        (exposed y' &&& Flag.UNSAFE_TO_CONCAT ≠ 0 ↔ x.mask &&& Flag.UNSAFE_TO_CONCAT ≠ 0) ∧
+        (exposed y' &&& Flag.UNSAFE_TO_BREAK ≠ 0 ↔ x.mask &&& Flag.UNSAFE_TO_BREAK ≠ 0) ∧
+        (BreakHasConcat x.mask → BreakHasConcat y'.mask) := by
+  obtain ⟨info, k, heq, hk, _, _, hout, _, hfl⟩ :=
+    Buf.delin_backward_carries b i j fuel x p hi hlen hji hj hx hdel hp hnext hlt
+  refine ⟨info, k, heq, hk, hout, ?_⟩
+  intro q y' h1 h2 hy'
+  obtain ⟨hc, he⟩ := hfl q y' h1 h2 hy'
+  have e2 : y'.mask &&& 2 = x.mask &&& 2 := by
+    have h := congrArg (· &&& 2) he
+    simp only [exposed_bit _ 2 (by decide)] at h
+    exact h
+  have e1 : y'.mask &&& 1 = x.mask &&& 1 := by
+    have h := congrArg (· &&& 1) he
+    simp only [exposed_bit _ 1 (by decide)] at h
+    exact h
+  refine ⟨hc, ?_, ?_, ?_⟩
+  · rw [exposed_bit _ _ (by decide)]; show y'.mask &&& 2 ≠ 0 ↔ x.mask &&& 2 ≠ 0; rw [e2]
+  · rw [exposed_bit _ _ (by decide)]; show y'.mask &&& 1 ≠ 0 ↔ x.mask &&& 1 ≠ 0; rw [e1]
+  · intro hb
+    unfold BreakHasConcat at hb ⊢
+    rw [e1, e2]; exact hb
+
+example : ∃ (b : Buf) (i j : Nat) (x p : Info), i < b.len ∧ b.len ≤ b.info.length ∧ j ≤ i ∧ j ≠ 0 ∧ b.info[i]? = some x ∧
+    x.var2 = 1 ∧ b.info[j - 1]? = some p ∧
+    (∀ nx, i + 1 < b.len → b.info[i + 1]? = some nx → nx.cluster ≠ x.cluster) ∧ x.cluster < p.cluster := by
+  refine ⟨{ info := [{ gid := 3, cluster := 3 }, { gid := 2, cluster := 2 }, { gid := 0, cluster := 1, mask := 2, var2 := 1 },
+                     { gid := 1, cluster := 0, mask := 2 }], len := 4 }, 2, 2,
+          { gid := 0, cluster := 1, mask := 2, var2 := 1 }, { gid := 2, cluster := 2 }, by decide, by decide, by decide, by decide,
+          rfl, rfl, rfl, ?_, by decide⟩
+  intro nx _ h
+  simp at h
+  subst h
+  decide
 
 end RbModel.Flags
